@@ -539,7 +539,32 @@ class Interp:
 
     # ------------------------------------------------------------------ loops
     def st_While(self, st):
-        raise Unsupported("while loop", st, self.site(st))
+        """Concrete unrolling: the test is evaluated before every iteration; an iteration whose test the analyser cannot evaluate
+        is a decision of its own (first time, second time, ...), at most MAX_WHILE_UNKNOWN of them, and the loop must end within
+        max_unroll * 4 iterations - otherwise the path is outside the analyser's vocabulary (never a silent truncation)."""
+        n = unknown = 0
+        while True:
+            cv = self.eval(st.test)
+            known = self.truth(cv)
+            if known is None:
+                unknown += 1
+                if unknown > 3:
+                    raise Unsupported("while loop whose test stays undecidable", st, self.site(st))
+                go = self.decide(None, st.test, "%s [iteration %d]" % (ast.unparse(st.test)[:40], n), value=cv)
+            else:
+                go = known
+            if not go:
+                self.exec_block(st.orelse)
+                return
+            n += 1
+            if n > self.max_unroll * 4:
+                raise Unsupported("while loop not finished after %d iterations" % n, st, self.site(st))
+            try:
+                self.exec_block(st.body)
+            except BreakEx:
+                return
+            except ContinueEx:
+                continue
 
     def st_For(self, st):
         it = self.eval(st.iter)
